@@ -264,6 +264,18 @@ func runC04Corr(c *Ctx) {
 				body = nil
 			case 3:
 				body = append(bytes.Repeat([]byte{' '}, 60+r.Intn(10)), body...)
+			case 4:
+				// lines starting with endstream (the recovery stops at the first one), endobj and
+				// line-initial object headers in the data
+				for k := 1 + r.Intn(3); k > 0; k-- {
+					w := Pick(r, []string{"\nendstream x", "\rendstream\r\nendobj", "\n12 0 obj ", "endobj", "\nendstream\n\nendstream ", "\r\nendstream \t\x00endobj", "\n7\x000\tobj", "\nendstreamendobj", "\n 3 0 obj"})
+					p := r.Intn(len(body) + 1)
+					body = append(body[:p:p], append([]byte(w), body[p:]...)...)
+				}
+			}
+			if r.P(1, 4) {
+				// D-C20-1: the data ends in EOL bytes of its own
+				body = append(body, Pick(r, []string{"\n", "\r\n", "\r", "\n\n", "\r\r\n", "\n\r"})...)
 			}
 			var ob bytes.Buffer
 			fmt.Fprintf(&ob, "%d %d obj", 1+r.Intn(9), r.Intn(2))
